@@ -187,7 +187,7 @@ impl Ctx {
             adv = adv.with_merkle_store(s.clone());
         }
         let host = QuietHost::new(DefaultHost::new(MemAdviceProvider::from(adv)));
-        match exec_host(prog, case.stack_inputs(), host, ExecutionOptions::default()) {
+        match exec_host(prog, case.stack_inputs(), host, crate::case::bounded_opts()) {
             ExecOutcome::Ok(t) => {
                 let s = t.stack_outputs().stack().to_vec();
                 Out::Ok(s, t)
